@@ -141,7 +141,7 @@ Qed.
 (* messageHeader never touches the key context, the message state, the pending replies or the resend state *)
 Lemma messageHeader_frame c ev : let '(h, c', ev') := messageHeader c ev in
   c_keys c' = c_keys c /\ c_msgState c' = c_msgState c /\ c_injections c' = c_injections c /\ ev' = ev /\
-  c_errHandler c' = c_errHandler c /\ c_policies c' = c_policies c.
+  c_errHandler c' = c_errHandler c /\ c_policies c' = c_policies c /\ c_resendMsgs c' = c_resendMsgs c.
 Proof.
   unfold messageHeader, generateInstanceTag, fresh, draw. msimpl.
   destruct (c_version c =? 3); msimpl; [|repeat split].
@@ -209,7 +209,7 @@ Proof. unfold akeHasFinished, fresh, draw. msimpl. repeat split. Qed.
 (* building and sending a data message emits no event and changes neither message state nor AKE context *)
 Lemma csdm_frame now t flag tlvs c ev :
   let '(res, c', ev') := createSerializedDataMessage now t flag tlvs c ev in
-  ev' = ev /\ c_msgState c' = c_msgState c /\ c_ake c' = c_ake c /\ c_policies c' = c_policies c.
+  ev' = ev /\ c_msgState c' = c_msgState c /\ c_ake c' = c_ake c /\ c_policies c' = c_policies c /\ c_smp c' = c_smp c.
 Proof.
   unfold createSerializedDataMessage, genDataMsgWithFlag. msimpl.
   destruct (negb (c_msgState c =? c_encrypted)); msimpl; [repeat split|].
@@ -238,7 +238,7 @@ Proof.
     pose proof (csdm_frame now [] c_messageFlagIgnoreUnreadable [TDisconnected] (c <| c_smp := smp_wiped |>) []) as F.
     destruct (createSerializedDataMessage now [] c_messageFlagIgnoreUnreadable [TDisconnected] (c <| c_smp := smp_wiped |>) [])
       as [[res c1] ev1].
-    destruct F as [-> [F1 [F2 F3]]]. cbn [c_msgState] in F1.
+    destruct F as [-> [F1 [F2 [F3 _]]]]. cbn [c_msgState] in F1.
     rewrite Ee. change (c_encrypted =? c_plainText) with false.
     destruct res as [[ws x]|e|]; msimpl; cbn; repeat split; auto; try tauto; try discriminate; intros [H|[]]; discriminate.
   - assert (Hne : c_msgState c <> c_encrypted) by (apply N.eqb_neq; exact Ee). msimpl.
